@@ -179,7 +179,7 @@ def wsweep_check(case):
 
 
 def rerun_cases(tier, seed):
-    return [(layout, same, comp) for layout in ("NP2.1", "NP2.4") for same in (False, True) for comp in (False, True)]
+    return [(layout, same, comp) for layout in ("NP2.1", "NP2.4") for same in (False, True, "reinit-other-window") for comp in (False, True)]
 
 
 def rerun_check(case):
@@ -225,6 +225,8 @@ def rerun_check(case):
                 target = ap.with_suffix(".cbin")
             conv = neuropixel.NP2Converter(target, post_check=True, compress=compress)
             conv.init_params(nwindow=600)
+        elif same_object == "reinit-other-window":
+            conv.init_params(nwindow=720)         # same object, other processing window: window independence allows 1 LSB
         st2 = conv.process(overwrite=True)
         conv.sr.close()
         second = read_all()
@@ -232,7 +234,9 @@ def rerun_check(case):
             v.append(("lf:rerun:status", "%r: statuses %r" % (case, (st1, st2))))
         for sh in first:
             (shape1, a, size1), (shape2, b, size2) = first[sh], second[sh]
-            if shape2 != (nlf, a.shape[1]) or not np.array_equal(a, b) or (size2 is not None and size2 != nlf * a.shape[1] * 2):
+            same_lf = np.array_equal(a, b) if same_object != "reinit-other-window" else (
+                a.shape == b.shape and np.array_equal(a[:, -1], b[:, -1]) and int(np.max(np.abs(a.astype(int) - b.astype(int)))) <= 1)
+            if shape2 != (nlf, a.shape[1]) or not same_lf or (size2 is not None and size2 != nlf * a.shape[1] * 2):
                 v.append(("lf:rerun", "%r: after a forced re-conversion the LF file of shank %d has shape %r / %r bytes (first run: %r)" % (case, sh, shape2, size2, shape1)))
     except Exception as e:
         v.append(("lf:rerun:exc:%s" % type(e).__name__, "%r: %s: %s" % (case, type(e).__name__, e)))
